@@ -2,6 +2,7 @@ import CssVerif.Lemmas.TokLex2
 import CssVerif.Lemmas.TokComment
 import CssVerif.Lemmas.TokStrItems
 import CssVerif.Lemmas.TokIdentDash
+import CssVerif.Lemmas.TokUriQ
 /-!
 # Lexeme separation for all token classes (`Lex2`, `render2`, `expectedAll`)
 -/
@@ -62,6 +63,7 @@ inductive Lex2 where
   | cdc                                    -- CDC `-->`
   | strI (q : Nat) (its : List SItem)      -- STRING with escapes / line continuations: quote, items, quote
   | identD (n c : Nat) (cs : Cps)          -- IDENT that starts with one or two hyphens
+  | uriQ (u r l : Nat) (w1 : Cps) (q : Nat) (its : List SItem) (w2 : Cps)   -- URI, quoted: url( ws? string ws? )
 
 def Lex2.text : Lex2 → Cps
   | .old t => t.text
@@ -73,6 +75,7 @@ def Lex2.text : Lex2 → Cps
   | .cdc => cdcText
   | .strI q its => q :: flat its ++ [q]
   | .identD n c cs => dashes n ++ c :: cs
+  | .uriQ u r l w1 q its w2 => u :: r :: l :: 40 :: (w1 ++ (q :: (flat its ++ q :: (w2 ++ [41]))))
 
 def Lex2.typ : Lex2 → String
   | .old t => t.typ
@@ -84,10 +87,12 @@ def Lex2.typ : Lex2 → String
   | .cdc => "CDC"
   | .strI _ _ => "STRING"
   | .identD _ _ _ => "IDENT"
+  | .uriQ _ _ _ _ _ _ _ => "URI"
 
 /-- the expected token value: the text itself, except for strings with escapes (one-pass decoding) -/
 def Lex2.value : Lex2 → Cps
   | .strI q its => stringValue (q :: flat its ++ [q])
+  | .uriQ u r l w1 q its w2 => stringValue (u :: r :: l :: 40 :: (w1 ++ (q :: (flat its ++ q :: (w2 ++ [41])))))
   | t => t.text
 
 def Lex2.WF : Lex2 → Prop
@@ -100,6 +105,8 @@ def Lex2.WF : Lex2 → Prop
   | .cdc => True
   | .strI q its => (q = 34 ∨ q = 39) ∧ ∀ i ∈ its, i.WF q
   | .identD n c cs => (n = 1 ∨ n = 2) ∧ inR nameStart c = true ∧ ∀ x ∈ cs, inR identRest x = true
+  | .uriQ u r l w1 q its w2 => IsU u ∧ IsR r ∧ IsL l ∧ (∀ x ∈ w1, isWsC x = true) ∧ (q = 34 ∨ q = 39) ∧
+      (∀ i ∈ its, i.WF q) ∧ ∀ x ∈ w2, isWsC x = true
 
 /-- the lexemes joined by single spaces -/
 def render2 : List Lex2 → Cps
@@ -235,6 +242,21 @@ theorem lex2_step (doC : Bool) (t : Lex2) (h : t.WF) (stop : Cps) (hs : Sep stop
     · have hu : unescTypes.contains "STRING" = true := by decide
       have hc : cleanTypes.contains "STRING" = true := by decide
       simp only [valueOf, hu, hc, if_true, subS_eq_stringValue, Lex2.value]
+  | uriQ u r l w1 q its w2 =>
+    obtain ⟨hu, hr, hl, hw1, hq, hi, hw2⟩ := h
+    apply loop_step2 doC fuel (u :: r :: l :: 40 :: (w1 ++ (q :: (flat its ++ q :: (w2 ++ [41]))))) stop line col
+      "URI" (by simp)
+    · intro c t e; simp only [List.cons.injEq] at e; obtain ⟨rfl, _⟩ := e
+      rcases hu with rfl | rfl <;> decide
+    · have := scan_uri_quoted doC u r l hu hr hl w1 w2 q hq its hw1 hw2 hi stop
+      have hlen : (u :: r :: l :: 40 :: (w1 ++ (q :: (flat its ++ q :: (w2 ++ [41]))))).length =
+          4 + (w1.length + (((flat its).length + 2) + (w2.length + 1))) := by
+        simp only [List.length_cons, List.length_append, List.length_nil]; omega
+      rw [hlen]
+      simpa [List.append_assoc] using this
+    · have hu' : unescTypes.contains "URI" = true := by decide
+      have hc : cleanTypes.contains "URI" = true := by decide
+      simp only [valueOf, hu', hc, if_true, subS_eq_stringValue, Lex2.value]
   | identD n c cs =>
     obtain ⟨hn, hc, hcs⟩ := h
     have hd45 : ∀ x ∈ dashes n, x = 45 := by
@@ -278,6 +300,9 @@ theorem lex2_head (t : Lex2) (h : t.WF) : ∃ c w, t.text = c :: w ∧ inR lexHe
   | strI q its =>
     refine ⟨q, flat its ++ [q], rfl, ?_⟩
     rcases h.1 with rfl | rfl <;> decide
+  | uriQ u r l w1 q its w2 =>
+    refine ⟨u, r :: l :: 40 :: (w1 ++ (q :: (flat its ++ q :: (w2 ++ [41])))), rfl, ?_⟩
+    rcases h.1 with rfl | rfl <;> decide
   | identD n c cs =>
     rcases h.1 with rfl | rfl
     · exact ⟨45, c :: cs, rfl, by decide⟩
@@ -290,9 +315,9 @@ theorem render2_head (t : Lex2) (ts : List Lex2) (h : t.WF) :
   | nil => exact ⟨c, w, hw, hc⟩
   | cons u us => exact ⟨c, w ++ 32 :: render2 (u :: us), by simp [render2, hw], hc⟩
 
-theorem lex2_found_value (t : Lex2) : t.typ ≠ "STRING" → t.text = t.value := by
+theorem lex2_found_value (t : Lex2) : t.typ = "FUNCTION" → t.text = t.value := by
   intro h
-  cases t <;> first | rfl | exact absurd rfl h
+  cases t <;> first | rfl | exact absurd h (by simp only [Lex2.typ]; decide)
 
 /-- every item is yielded unless it is a comment and comments are off -/
 def EmitOK (doC : Bool) (it : Item) : Prop := it.emit = (doC || it.typ != "COMMENT")
@@ -301,7 +326,7 @@ theorem loop_lexemes2 (doC : Bool) : ∀ (ts : List Lex2), (∀ t ∈ ts, t.WF) 
     (render2 ts).length < fuel →
       (loop false doC fuel (render2 ts) line col).items.map proj = expectedAll ts ∧
       ∀ it ∈ (loop false doC fuel (render2 ts) line col).items,
-        EmitOK doC it ∧ (it.typ ≠ "STRING" → it.found = it.value) := by
+        EmitOK doC it ∧ (it.typ = "FUNCTION" → it.found = it.value) := by
   intro ts
   induction ts with
   | nil =>
